@@ -14,13 +14,19 @@ class Operand(property):
     Arguments:
         name: The name that will be shown in the usage.
         cls: The type that this function must take.
+        signed: For an integer operand which is stored into a token field
+            by means of a pattern: True when the instruction reads the
+            field as a two's complement number, False when it reads the
+            field as an unsigned number. Values outside of exactly that
+            range are refused. By default both ranges are accepted.
 
     Custom derived property that implements the descriptor protocol
     by inheriting property
     """
 
-    def __init__(self, name, cls, read=False, write=False):
+    def __init__(self, name, cls, read=False, write=False, signed=None):
         self._name = name
+        self._signed = signed
         if isinstance(cls, dict):
             self._value_map = cls
             cls = tuple(cls.keys())
@@ -189,7 +195,7 @@ class Constructor:
         for pattern in self.dict_to_patterns(self.patterns):
             value = pattern.get_value(self)
             assert isinstance(value, int), str(self) + str(value)
-            tokens.set_field(pattern.field, value)
+            tokens.set_field(pattern.field, value, signed=pattern.signed)
         self.set_user_patterns(tokens)
 
     def set_user_patterns(self, tokens):
@@ -568,6 +574,10 @@ class BitPattern:
     to a value of some kind.
     """
 
+    # Whether the field holds a signed (True) or unsigned (False) number.
+    # None means unknown: the field takes both ranges.
+    signed = None
+
     def __init__(self, field):
         self.field = field
 
@@ -593,6 +603,7 @@ class VariablePattern(BitPattern):
     def __init__(self, field, prop):
         super().__init__(field)
         self.prop = prop
+        self.signed = prop.source._signed
 
     def get_value(self, objref):
         return self.prop.get_value(objref)
